@@ -2,6 +2,6 @@
 # usage: tl.sh <Module.tla> <cfg> [extra tlc args]  -- run TLC and print a compact result
 m=$1; c=$2; shift 2
 d=$(mktemp -d /tmp/tlcm.XXXXXX)
-timeout ${TLTIMEOUT:-900} java -XX:+UseParallelGC -Xmx12g -cp /opt/veriftools/tla/tla2tools.jar:/opt/veriftools/tla/CommunityModules-deps.jar tlc2.TLC -workers ${TLW:-16} -metadir $d -noGenerateSpecTE -config $c "$@" $m > $d/out.txt 2>&1
+timeout ${TLTIMEOUT:-900} java -XX:+UseParallelGC -Xmx12g -Djava.io.tmpdir=$d -cp /opt/veriftools/tla/tla2tools.jar:/opt/veriftools/tla/CommunityModules-deps.jar tlc2.TLC -workers ${TLW:-16} -metadir $d -noGenerateSpecTE -config $c "$@" $m > $d/out.txt 2>&1
 if grep -q "Error:" $d/out.txt; then /venv/bin/python /verif/harness/tlcshow.py < $d/out.txt; grep -E "^Error|evaluat|line [0-9]+, col" $d/out.txt | grep -v "^State\|State [0-9]" | head -20; else grep -E "states generated|depth of|No error|Finished in" $d/out.txt | tail -4; fi
 rm -rf $d
